@@ -362,7 +362,11 @@ def _ts_eval(pt, seed):
         check_trace = False
     else:
         raise core.HarnessError("unknown module %r" % module)
-    example = torch.empty(1, dtype=_tdt(prec))
+    # tracing example: one sample, and (parameter-free modules) possibly of ANOTHER dtype than the
+    # signals the traced module is then applied to - nothing of the example may be baked into the graph
+    example = torch.empty(1, dtype=_tdt(pt.get("example_precision", prec)))
+    if "example_precision" in pt:
+        tags["example_dtype_differs"] = pt["example_precision"] != prec
     for mode in pt["modes"]:
         rc = _ts_compile(eager, mode, example, check_trace)
         case = dict(pt, mode=mode)
@@ -440,9 +444,13 @@ def _ts_points(tier):
     for coeff in (0.97, 0.0, -1.5):
         for prec in PRECS:
             pts.append(dict(module="preemph", coeff=coeff, precision=prec, modes=["script", "trace"]))
+            pts.append(dict(module="preemph", coeff=coeff, precision=prec, modes=["trace"],
+                            example_precision=[q for q in PRECS if q != prec][0]))
     for coeff in (1.0, 0.25):
         for prec in PRECS:
             pts.append(dict(module="dither", coeff=coeff, precision=prec, modes=["script", "trace"]))
+            pts.append(dict(module="dither", coeff=coeff, precision=prec, modes=["trace"],
+                            example_precision=[q for q in PRECS if q != prec][0]))
     return pts
 
 
